@@ -8,7 +8,7 @@ def _lines(*fs):
         if os.path.exists(f):
             for l in open(f):
                 yield l
-for l in _lines("/tmp/mut/confirm.jsonl", "/tmp/mut/confirm2.jsonl", "/tmp/mut3/confirm3.jsonl", "/tmp/mut3/confirm3b.jsonl", "/tmp/mut4/confirm4.jsonl", "/tmp/mut5/confirm5.jsonl", "/tmp/mut6/confirm6.jsonl"):
+for l in _lines("/tmp/mut/confirm.jsonl", "/tmp/mut/confirm2.jsonl", "/tmp/mut3/confirm3.jsonl", "/tmp/mut3/confirm3b.jsonl", "/tmp/mut4/confirm4.jsonl", "/tmp/mut5/confirm5.jsonl", "/tmp/mut6/confirm6.jsonl", "/tmp/mut7/confirm7.jsonl"):
     try:
         d = json.loads(l)
         CONF[d["dir"]] = d
@@ -16,12 +16,12 @@ for l in _lines("/tmp/mut/confirm.jsonl", "/tmp/mut/confirm2.jsonl", "/tmp/mut3/
         pass
 EXTRA = {"C05": ["C05", "C06", "C17"], "C06": ["C06", "C05"], "C17": ["C17", "C05"], "C04": ["C04", "C02", "C09"], "C10": ["C10", "C02"]}
 WAVE = os.environ.get("WAVE", "")          # "3": take /tmp/mut3/Cxx_out/*, ids Cxx-w3<name>, own property only
-if WAVE in ("3", "4", "5", "6"):
+if WAVE in ("3", "4", "5", "6", "7"):
     EXTRA = {}
 only = sys.argv[1:]
-for d in sorted(glob.glob("/tmp/mut%s/C*_out/*m[0-9]" % WAVE) if WAVE in ("3", "4", "5", "6") else glob.glob("/tmp/mut/C*_out/m*")):
+for d in sorted(glob.glob("/tmp/mut%s/C*_out/*m[0-9]" % WAVE) if WAVE in ("3", "4", "5", "6", "7") else glob.glob("/tmp/mut/C*_out/m*")):
     prop = os.path.basename(os.path.dirname(d))[:3]
-    mid = "%s-%s%s" % (prop, ("w" + WAVE) if WAVE in ("3", "4", "5", "6") else "", os.path.basename(d).replace("extra_", "x"))
+    mid = "%s-%s%s" % (prop, ("w" + WAVE) if WAVE in ("3", "4", "5", "6", "7") else "", os.path.basename(d).replace("extra_", "x"))
     if only and mid not in only and prop not in only:
         continue
     if not os.path.exists(os.path.join(d, "patch.diff")):
